@@ -19,7 +19,7 @@
 (* TLC.  Anything HcAbs has no behaviour for (error, panic, hang, a view   *)
 (* that is neither before nor after) leaves the event unmatched.           *)
 (***************************************************************************)
-EXTENDS HcAbs, Json, IOUtils
+EXTENDS HcAbs, Json, IOUtils, Layout
 
 Rec == ndJsonDeserialize(IOEnv.TRACE)
 
@@ -46,6 +46,22 @@ ViewOK(c, v) ==
        /\ v.blk[j][2] = RSize(Log(c), i)
        /\ v.blk[j][3] = RCid(Log(c), i)
 
+\* C06: what a reader that knows only the JavaScript layout reconstructs from the four stores
+\* (records decoded by the harness through the templates of Layout, reader algorithm JsRead in
+\* Layout) is the state the API reports; and re-encoding the decoded frames through the templates
+\* gives back the stored bytes
+IvSet(h) == UNION {h[k][1]..(h[k][2] - 1) : k \in 1..Len(h)}
+JsOK(js, v) ==
+  LET r == JsRead(js.slots, js.entries, IvSet(js.bf), v.len + 1) IN
+  /\ r.ok
+  /\ r.len = v.len
+  /\ r.held = IvSet(v.held)
+  /\ r.contig = v.contig
+  /\ r.writable = v.writable
+  /\ js.reenc_bad = 0
+  /\ js.tree_tail = 0
+JsIfLogged(E) == ("js" \in DOMAIN E) => JsOK(E.js, E.view)
+
 EvsOK(c, evs, expected) ==
   /\ Len(evs) = cores[c].subs
   /\ \A s \in 1..Len(evs) : evs[s] = expected
@@ -70,6 +86,7 @@ TOp(E) ==
   \* C12: a refused append and a no-op make_read_only touch no store, and once a call has
   \* returned on a sealed core (make_read_only has returned) no store holds any 8-byte window
   \* of the secret key
+  /\ JsIfLogged(E)
   /\ (E.ret.t = "notwritable" => E.jn = 0)
   /\ (E.op.o = "mro" /\ ~cores[E.c].writable => E.jn = 0)
   /\ (cores[E.c].sealed)' => E.leak = <<>>
@@ -112,6 +129,16 @@ TSynced(E) ==
   /\ ViewOK("w", E.w) /\ ViewOK("r", E.r)
   /\ E.r.len = E.w.len /\ E.r.bytes = E.w.bytes
   /\ \A k \in 1..Len(E.w.held) : \A i \in E.w.held[k][1]..(E.w.held[k][2] - 1) : IvHas(E.r.held, i)
+  /\ UNCHANGED <<truth, cores, stack>>
+
+\* C06 (converse): storage laid out by the JavaScript rules by someone else (header in either
+\* slot, trailing partial entries, complete atomic batches, stale entries) is opened by the crate
+\* to the state JsRead prescribes
+TForeign(E) ==
+  /\ E.e = "foreign"
+  /\ E.open.t = "ok"
+  /\ JsOK(E.js, E.view)
+  /\ E.view.beyond = <<>> /\ E.view.gerr = <<>>
   /\ UNCHANGED <<truth, cores, stack>>
 
 \* the call E.op was in progress when the process died after E.ks storage operations
@@ -161,7 +188,7 @@ TNext ==
   /\ \E E \in {Rec[l]} :
        \/ TReset(E) \/ TCreate(E) \/ TOp(E) \/ TCrashOpen(E) \/ TIoErr(E)
        \/ TCrashCreate(E) \/ TPush(E) \/ TPop(E)
-       \/ TForged(E) \/ TRawReq(E) \/ TSynced(E)
+       \/ TForged(E) \/ TRawReq(E) \/ TSynced(E) \/ TForeign(E)
 
 TInit == truth = Empty /\ cores = Empty /\ stack = <<>> /\ l = 1
 
